@@ -745,10 +745,12 @@ def plan(ctx):
         n_random, stride = ctx.scale(16, 400), 2
     else:
         items += [("base", "untrimmed", 2, True, 1), ("base", "replication", 3, True, 1), ("base", "snapshot", 3, True, 1),
+                  ("base", "members", 3, True, 1),
                   ("base", "conflict", 3, True, 1), ("base", "vote", 3, True, 1), ("base", "replication", 2, False, 2 if quick else 1),
                   ("base", "untrimmed", 3, False, 2 if quick else 1)]
         if not quick:
             items += [("base", "snapshot", 3, False, 1), ("base", "conflict", 5, False, 1), ("base", "replication", 5, True, 1),
+                      ("base", "members", 3, False, 1), ("base", "members", 4, True, 1),
                       ("base", "snapshot", 5, True, 1), ("base", "untrimmed", 5, True, 1)]
         n_random, stride = ctx.scale(20, 800), ctx.scale(3, 1)
     for k in range(n_random):
@@ -814,7 +816,10 @@ def assemble(ctx, results, t0, planned, skipped):
         need = ["journal.record-store", "journal.header-store", "meta.tmp-write", "meta.move", "dump.tmp-write", "dump.rename",
                 "snapin.tmp-write", "snapin.rename"]
         missing = [k for k in need if k not in prim_kinds]
-        need.append("journal.resize")
+        need += ["journal.resize", "journal.tmp-create", "journal.tmp-write", "journal.tmp-record-store",
+                 "journal.tmp-header-store", "journal.rename", "journal.reopen"]
+        if not cov.get("crash:stale-journal-tmp-images") or not cov.get("crash:members-checked"):
+            need.append("stale-journal-tmp-images / members-checked")
         hneed = ["headdrop", "truncate", "deliver:request_vote", "deliver:append_entries", "(snapshot)", "(chunk)",
                  "(first-after-restart)", "tick(leader)", "deliver:response_vote"]
         missing += [h for h in hneed if not any(h in k for k in handler_kinds)]
